@@ -25,7 +25,7 @@ where
     let queue: Arc<Mutex<VecDeque<(u64, String)>>> = Arc::new(Mutex::new(VecDeque::new()));
     let done = Arc::new(Mutex::new(false));
     let viols: Arc<Mutex<Vec<J>>> = Arc::new(Mutex::new(Vec::new()));
-    let stats: Arc<Mutex<(u64, BTreeMap<String, u64>, Vec<J>)>> = Arc::new(Mutex::new((0, BTreeMap::new(), Vec::new())));
+    let stats: Arc<Mutex<(u64, BTreeMap<String, u64>, Vec<J>, BTreeMap<String, u64>)>> = Arc::new(Mutex::new((0, BTreeMap::new(), Vec::new(), BTreeMap::new())));
     let setup = Arc::new(setup);
     let run = Arc::new(run);
     let mut hs = Vec::new();
@@ -51,8 +51,20 @@ where
                             }
                         }
                         if let Some((kind, what)) = o.viol {
+                            // at most 5 violations per signature (kind, class, message without its numbers), so that
+                            // many instances of one failure cannot crowd out a different one
+                            let site: String = match what.find(".rs:") {
+                                Some(i) => what[what[..i].rfind(' ').map(|k| k + 1).unwrap_or(0)..].chars().take_while(|ch| *ch != ' ').collect(),
+                                None => what.chars().filter(|ch| !ch.is_ascii_digit()).take(160).collect(),
+                            };
+                            let sig: String = format!("{}:{}:{}", kind, o.class, site);
+                            let mut st = stats.lock().unwrap();
+                            let n = st.3.entry(sig).or_insert(0);
+                            *n += 1;
+                            let keep = *n <= 5;
+                            drop(st);
                             let mut vs = viols.lock().unwrap();
-                            if vs.len() < 500 {
+                            if keep && vs.len() < 500 {
                                 vs.push(json!({"kind": kind, "op": o.class, "what": what, "case": c}));
                             }
                         }
@@ -100,7 +112,7 @@ where
     }
     let vs = viols.lock().unwrap();
     let st = stats.lock().unwrap();
-    println!("{} {}", summary_tag, json!({"cases": st.0, "by_class": st.1, "samples": st.2, "violations": vs.len()}));
+    println!("{} {}", summary_tag, json!({"cases": st.0, "by_class": st.1, "samples": st.2, "violations": vs.len(), "violations_by_signature": st.3}));
     if let Some(p) = args.get("viol") {
         let mut f = std::fs::File::create(p).expect("viol file");
         for v in vs.iter() {
